@@ -189,9 +189,7 @@ def check : Tm → Verdict
     let base := ((check l).and (check r)).and (resolvesAll (schema l ++ schema r) on "join")
     match joinType? t with
     | none => base.and (.buildPanic "invalid join type")
-    | some .rightOuter => base.and (.runtimeTodo "nested-loop right/full outer join")
-    | some .fullOuter => base.and (.runtimeTodo "nested-loop right/full outer join")
-    | some _ => base
+    | some _ => base    -- every join type since `fix:` 7d07810 (right / full outer were `todo!()`)
   | .node .hashjoin [t, cond, lk, rk, l, r] =>
     let base := (((check l).and (check r)).and (resolvesAll (schema l) lk "hashjoin left keys")).and
       (resolvesAll (schema r) rk "hashjoin right keys")
